@@ -264,6 +264,19 @@ func main() {
 			if j.o.Kind == "cover" || j.o.Kind == "vacuity" {
 				// expected sat; a short budget is enough (undecided is tolerated)
 				j.o.Res = Solve(script, nil, 5, lam)
+				if j.o.Res.Status == "unsat" && j.o.NAssumePre >= 0 {
+					// was the point before the step reachable at all?
+					pre := *j.o
+					pre.NAssume = j.o.NAssumePre
+					mu.Lock()
+					ps, _, pl := buildScript(j.fr.Assumes, &pre, false)
+					mu.Unlock()
+					j.o.PreRes = Solve(ps, nil, 5, pl)
+					if j.o.PreRes.Status == "unsat" {
+						// a dead path (e.g. a dispatch branch excluded by the precondition): nothing to blame
+						j.o.Res.Status = "dead-path"
+					}
+				}
 				return
 			}
 			if gscript != "" {
